@@ -424,8 +424,11 @@ func corrProbe(r *Rng, which string) (line, got string) {
 			xb int64
 		}
 		var eds []ed
+		// x scale: nearly horizontal edges (|dx| > 100) take the getClosestPtOnSegment branches of
+		// addNewIntersectNode when the rounded intersection falls outside the beam
+		kx := k * []int64{1, 1, 1, 150, 1000}[r.Intn(5)]
 		for i := 0; i < n; i++ {
-			xb, xt := int64(r.Range(0, 5))*k, int64(r.Range(0, 5))*k
+			xb, xt := int64(r.Range(0, 5))*kx, int64(r.Range(0, 5))*kx
 			bot, top := P{X: xb, Y: botY}, P{X: xt, Y: topY}
 			if r.Chance(0.4) { // extend beyond the beam: the x at topY / botY is a rounded value
 				m := int64(r.Range(1, 3))
@@ -450,11 +453,10 @@ func corrProbe(r *Rng, which string) (line, got string) {
 		var sel, ael []int
 		fault := safeCall(func() { curX, nodes, pts, sel, done, ael = clip.VDoIntersections(es, botY, topY) })
 		var sb strings.Builder
-		fmt.Fprintf(&sb, "model ixlist %d %d", topY, n)
+		fmt.Fprintf(&sb, "model ixlist %d %d %d", topY, botY, n)
 		for _, e := range es {
 			fmt.Fprintf(&sb, " %d %d %d %d", e.Bot.X, e.Bot.Y, e.Top.X, e.Top.Y)
 		}
-		sb.WriteString(" " + showPath(pts))
 		if fault != "" {
 			return sb.String(), "fault"
 		}
@@ -495,7 +497,110 @@ func corrProbe(r *Rng, which string) (line, got string) {
 		for i, x := range curX {
 			xs[i] = fmt.Sprint(x)
 		}
-		return sb.String(), fmt.Sprintf("x %s | n %s | sel %s | done %s | ael %s", strings.Join(xs, " "), showN(nodes), showL(sel), showN(done), showL(ael))
+		return sb.String(), fmt.Sprintf("x %s | n %s | p %s | sel %s | done %s | ael %s", strings.Join(xs, " "), showN(nodes), showPath(pts), showL(sel), showN(done), showL(ael))
+	case "ring":
+		// assembly of output rings: 2-6 synthetic closed edges, 1-14 operations as the sweep could issue
+		// them: addLocalMinPoly on two cold edges and addLocalMaxPoly on two hot edges (left edge first),
+		// addOutPt on a hot edge, swapOutrecs on any two edges; which edges are hot is read back from the
+		// real code after every operation; a tenth of the addOutPt / addLocalMaxPoly operations name
+		// arbitrary edges (a cold edge faults, in the code and in the model, and ends the sequence); points on
+		// a 3 x 2 grid so that repeated tips are frequent; with and without PolyTree owner bookkeeping
+		n := r.Range(2, 6)
+		tree := r.Bool()
+		var ops [][]int64
+		for k, m := 0, r.Range(1, 14); k < m; k++ {
+			hotRec, _, _, fa, ca := clip.VRingOps(n, tree, ops)
+			if fa >= 0 || ca >= 0 {
+				break
+			}
+			var hot, cold []int
+			for i, v := range hotRec {
+				if v >= 0 {
+					hot = append(hot, i)
+				} else {
+					cold = append(cold, i)
+				}
+			}
+			two := func(c []int) (int, int, bool) {
+				if len(c) < 2 {
+					return 0, 0, false
+				}
+				a := r.Intn(len(c))
+				b := r.Intn(len(c) - 1)
+				if b >= a {
+					b++
+				}
+				if c[a] > c[b] {
+					a, b = b, a
+				}
+				return c[a], c[b], true
+			}
+			x, y := int64(r.Range(0, 2)), int64(r.Range(0, 1))
+			switch r.Pick(3, 5, 3, 1) {
+			case 0:
+				if a, b, ok := two(cold); ok {
+					ops = append(ops, []int64{0, int64(a), int64(b), x, y, int64(r.Intn(2))})
+				}
+			case 1:
+				if r.Chance(0.1) {
+					ops = append(ops, []int64{1, int64(r.Intn(n)), x, y})
+				} else if len(hot) > 0 {
+					ops = append(ops, []int64{1, int64(hot[r.Intn(len(hot))]), x, y})
+				}
+			case 2:
+				all := make([]int, n)
+				for i := range all {
+					all[i] = i
+				}
+				src := hot
+				if r.Chance(0.1) {
+					src = all
+				}
+				if a, b, ok := two(src); ok {
+					ops = append(ops, []int64{2, int64(a), int64(b), x, y})
+				}
+			default:
+				a, b := r.Intn(n), r.Intn(n)
+				if a != b {
+					ops = append(ops, []int64{3, int64(a), int64(b)})
+				}
+			}
+		}
+		var sb strings.Builder
+		fmt.Fprintf(&sb, "model ring %s %d", bs(tree), n)
+		for _, op := range ops {
+			for _, v := range op {
+				fmt.Fprintf(&sb, " %d", v)
+			}
+		}
+		var edgeRec []int
+		var recs []clip.VRingRec
+		var succ bool
+		faultAt, cycleAt := -1, -1
+		if f := safeCall(func() { edgeRec, recs, succ, faultAt, cycleAt = clip.VRingOps(n, tree, ops) }); f != "" {
+			return sb.String(), "crash"
+		}
+		if faultAt >= 0 {
+			return sb.String(), fmt.Sprintf("fault %d", faultAt)
+		}
+		if cycleAt >= 0 {
+			return sb.String(), fmt.Sprintf("cycle %d", cycleAt)
+		}
+		o := func(v int) string {
+			if v < 0 {
+				return "-"
+			}
+			return fmt.Sprint(v)
+		}
+		es := make([]string, len(edgeRec))
+		for i, v := range edgeRec {
+			es[i] = o(v)
+		}
+		rs := make([]string, len(recs))
+		for i, rc := range recs {
+			rs[i] = fmt.Sprintf("f=%s b=%s o=%s p=%s", o(rc.Front), o(rc.Back), o(rc.Owner), showPath(rc.Pts))
+		}
+		return sb.String(), fmt.Sprintf("ok=%s | e %s | %s", bs(succ), strings.Join(es, " "), strings.Join(rs, " | "))
 	case "offraw":
 		// the raw ring that doGroupOffset appends for one closed path (before the union): Miter / Square /
 		// Bevel joins, deltas of both signs from tiny to large, miter limits, paths with duplicates,
@@ -912,7 +1017,7 @@ func corrProbe(r *Rng, which string) (line, got string) {
 }
 
 var genProbes = []string{"triSign", "multiplyUInt64", "productsAreEqual", "isCollinear", "CrossProduct", "dotProduct64", "segsIntersect", "checkPrecision", "IsOdd", "ptsReallyClose", "isContributingClosed", "isContributingOpen", "getLocation", "getEdgesForPt", "isHeadingClockwise", "headingClockwise", "getAdjacentLocation", "areOpposites", "hasHorzOverlap", "hasVertOverlap", "isClockwise", "getSegmentIntersection", "getSegmentIntersectPt", "rectMethods", "getBounds", "GetBounds64", "Area64", "PerpendicDistFromLineSqr64", "PerpendicDistFromLineSqrD", "areaTriangle"}
-var modelProbes = []string{"offplan", "rectpoly", "rectline", "pipop", "scan", "lowest", "trim", "simp64", "pip", "strip", "mink", "vertex", "clean", "build", "tree", "tree", "areaop", "contain", "aelins", "ixlist", "offraw", "offopen", "split", "buildpaths", "split", "buildpaths"}
+var modelProbes = []string{"offplan", "rectpoly", "rectline", "pipop", "scan", "lowest", "trim", "simp64", "pip", "strip", "mink", "vertex", "clean", "build", "tree", "tree", "areaop", "contain", "aelins", "ixlist", "ring", "offraw", "offopen", "split", "buildpaths", "split", "buildpaths"}
 
 func corrStage(name string, probes []string, quick, thorough int, rule string) {
 	stages[name] = func(ctx *Ctx, cnt func(q, t int) int, replay string) Result {
@@ -944,5 +1049,5 @@ func corrStage(name string, probes []string, quick, thorough int, rule string) {
 func init() {
 	corrStage("gen-corr", genProbes, 60000, 3000000, "translator validation: every generated function (Gen.*) is evaluated by the Lean oracle on operand-value inputs and compared with the real function called in-process (sign only for float64 cross / dot products, bit patterns for Area64, areaTriangle, PerpendicDistFromLineSqr64 and PerpendicDistFromLineSqrD, the last on float operands up to 2^29 with segments up to 2^28 long); non-trivial = any probe with a non-empty argument list")
 	corrStage("wind-corr", []string{"windc", "windx", "windd", "windc", "windd", "windopen"}, 60000, 2500000, "correspondence of the winding-count bookkeeping model (Model.Wind) with the real setWindCountForClosedPathEdge / setWindCountForOpenPathEdge / intersectEdges (counts, hotness afterwards and output records created, for hot / cold / front / back / shared-record combinations) run on synthetic active-edge lists (verif hook): 0-5 edges left of the new edge, subject / clip / open edges, all four fill rules, counts either produced by the real insertion (consistent states) or arbitrary in -3..3; resulting counts compared exactly")
-	corrStage("models-corr", modelProbes, 230000, 6000000, "function-level correspondence of the hand models (TrimCollinear64, SimplifyPath64, PointInPolygon, StripDuplicates, minkowskiInternal, addPathsToVertexList [vertex ring, flags, local minima], cleanCollinear's removal loop and buildPath on synthetic output rings, fixSelfIntersects / doSplitOp on rings whose next-but-one edges cross [remaining ring, dropped rings, created records], buildPaths on 1-3 synthetic records [the whole post-sweep pipeline incl. records appended while the loop runs], buildTree on synthetic tables of output records with nested / disjoint rectangles, arbitrary owner links and splits lists, pointInOpPolygon, path1InsidePath2 / getCleanPath on synthetic rings and the exported Path2ContainsPath1, isValidAelOrder / insertLeftEdge on synthetic active-edge lists (0-5 residents, shared bottom points, equal x, collinear edges, joined pairs), areaOP on synthetic rings at magnitudes up to 2^40 (float bit patterns), Group.GetLowestPathInfo, insertScanline / popScanline, RectClipLinesPaths64 [whole line machine] the raw rings of RectClip64.executeInternal [polygon state machine before checkEdges], the raw offset rings of one closed path and of one open path (Joined: both directions; capped: the walk whose caps are never built) [getUnitNormal, buildNormals, offsetPolygon, offsetPoint, doMiter / doSquare / doBevel and their float helpers, bit for bit, edges up to 2^35 long], and the decision events of ClipperOffset.Execute64 [group delta, per-path dispatch, final union]): random paths of 0-8 vertices on 2-4 wide grids (forcing duplicates, collinear runs, wrap-around cases) at three magnitudes; outputs compared exactly")
+	corrStage("models-corr", modelProbes, 230000, 6000000, "function-level correspondence of the hand models (TrimCollinear64, SimplifyPath64, PointInPolygon, StripDuplicates, minkowskiInternal, addPathsToVertexList [vertex ring, flags, local minima], cleanCollinear's removal loop and buildPath on synthetic output rings, fixSelfIntersects / doSplitOp on rings whose next-but-one edges cross [remaining ring, dropped rings, created records], buildPaths on 1-3 synthetic records [the whole post-sweep pipeline incl. records appended while the loop runs], buildTree on synthetic tables of output records with nested / disjoint rectangles, arbitrary owner links and splits lists, pointInOpPolygon, path1InsidePath2 / getCleanPath on synthetic rings and the exported Path2ContainsPath1, isValidAelOrder / insertLeftEdge on synthetic active-edge lists (0-5 residents, shared bottom points, equal x, collinear edges, joined pairs), buildIntersectList / processIntersectList on 0-7 synthetic edges spanning a scanbeam [x at the top, intersect nodes in emission order with their points, sorted edge list, processing order, AEL afterwards], the ring-assembly functions addLocalMinPoly / addOutPt / addLocalMaxPoly / joinOutrecPaths / swapOutrecs / setOwner on 2-6 synthetic edges and 1-14 operations [every edge's record, every record's ring, front / back edge and owner, faults], areaOP on synthetic rings at magnitudes up to 2^40 (float bit patterns), Group.GetLowestPathInfo, insertScanline / popScanline, RectClipLinesPaths64 [whole line machine] the raw rings of RectClip64.executeInternal [polygon state machine before checkEdges], the raw offset rings of one closed path and of one open path (Joined: both directions; capped: the walk whose caps are never built) [getUnitNormal, buildNormals, offsetPolygon, offsetPoint, doMiter / doSquare / doBevel and their float helpers, bit for bit, edges up to 2^35 long], and the decision events of ClipperOffset.Execute64 [group delta, per-path dispatch, final union]): random paths of 0-8 vertices on 2-4 wide grids (forcing duplicates, collinear runs, wrap-around cases) at three magnitudes; outputs compared exactly")
 }
